@@ -72,7 +72,10 @@ class Family:
             for (cid, k), post in impl.items():
                 if k == 0 or (cid, k) not in ops:
                     continue
-                pre = impl.get((cid, k - 1))
+                j = k - 1
+                while j > 0 and ops.get((cid, j), "").split(" ", 1)[0] == "8":
+                    j -= 1          # a query does not change the state: skip back over it
+                pre = impl.get((cid, j))
                 if pre is None:
                     continue
                 pt, ot = pre.split(), ops[(cid, k)].split()
@@ -133,6 +136,36 @@ PROPS["C01"] = dict(
 )
 
 
+def r_query2(tier, seed):
+    n = {"quick": 600, "thorough": 8000}[tier]
+    return ["--mode", "random", "--cases", str(n), "--ops", "30" if tier == "quick" else "80",
+            "--darts", "10" if tier == "quick" else "40", "--query", "12", "--wild", "3"]
+
+
+def x_query2(n):
+    return lambda tier, seed: ["--mode", "exhq", "--darts", str(n)]
+
+
+C03_CLASSES = {"1": "orbit is not head+closure", "2": "transactional orbit differs from plain orbit",
+               "3": "identifier is not the minimum of the cell", "4": "cell iterator wrong"}
+PROPS["C03"] = dict(
+    level="proof",
+    level_text="Coq theorems: the BFS worklist of orbit()/orbit_transac() computes exactly the reachability closure "
+               "(head first, no repetition, never the null dart) for every well-formed 2-map, dart and policy; Vertex/Edge/Face "
+               "closures are inverse-closed; vertex/edge/face ids are orbit minima, equal exactly within a cell; iterators "
+               "list the self-identified in-use darts in increasing order; transactional = plain. Tied to the code by "
+               "exhaustive (all well-formed maps <=4 darts) and random query runs; 3-map part: see DESIGN.md",
+    technique="Coq proof (verified worklist = reachability closure, ids = minima) + correspondence + extracted spec oracle",
+    families=[
+        Family("query2-random", "core2", r_query2, 1, [(3, "orbit_spec", C03_CLASSES)]),
+        Family("query2-exh3", "core2", x_query2(3), 1, [(3, "orbit_spec", C03_CLASSES)], exhaustive=True),
+        Family("query2-exh4", "core2", x_query2(4), 1, [(3, "orbit_spec", C03_CLASSES)], tiers=("thorough",), exhaustive=True),
+    ],
+    trusted=PROPS["C01"]["trusted"][:3] + ["hand-written Gallina model of dim2/orbits.rs, dim2/basic_ops.rs (ids, iterators)"],
+    assumptions=PROPS["C01"]["assumptions"],
+)
+
+
 def trusted_base(cfg, pr):
     tb = list(cfg.get("trusted", []))
     tb.append("axioms reported by Print Assumptions: %s" % (", ".join(pr["axioms"]) if pr["axioms"] else "none (closed under the global context)"))
@@ -151,6 +184,10 @@ def check(pid, tier, seed):
     tr_msgs = hc.regenerate() if cfg.get("translators") else []
     pr = hc.prove(pid)
     # 2. builds
+    ok, log = hc.coq_make("theories/Extract/Entry.vo")
+    if not ok:
+        print("INFRA: model does not compile\n" + log[-2000:])
+        return 2
     ok, log = hc.build_ml()
     if not ok:
         print("INFRA: model extraction/build failed\n" + log[-2000:])
